@@ -206,3 +206,85 @@ def parse(text):
     v = expr()
     assert pos[0] == len(toks), text
     return v
+
+
+# ---- powers of one base: b^(e1) * b^(e2) = b^(e1+e2) --------------------------------------------------------------
+# An atom "B^[e]" stands for base^e with e a polynomial (constant denominators only) in the other atoms. `rat_pow` produces
+# such atoms for base.powf(e) / base.powi(e) / base.sqrt() / base itself; `equal_pow` merges them after cross-multiplying.
+
+def _exp_name(poly):
+    if not poly:
+        return None
+    return "B^[%s]" % show((poly, ONE))
+
+
+def _exp_of(atom):
+    assert atom.startswith("B^[")
+    num, den = parse(atom[3:-1])
+    c = den[()]
+    return {m: v / c for m, v in num.items()}
+
+
+def pow_atom(expr_text_or_rat):
+    r = parse(expr_text_or_rat) if isinstance(expr_text_or_rat, str) else expr_text_or_rat
+    num, den = r
+    if list(den.keys()) != [()]:
+        raise NotRational("exponent with a non-constant denominator")
+    c = den[()]
+    poly = {m: v / c for m, v in num.items()}
+    name = _exp_name(poly)
+    return (p_atom(name), ONE) if name else (ONE, ONE)
+
+
+def merge_powers(p):
+    out = {}
+    for m, c in p.items():
+        e = {}
+        rest = []
+        for a in m:
+            if a.startswith("B^["):
+                e = p_add(e, _exp_of(a))
+            else:
+                rest.append(a)
+        nm = _exp_name(e)
+        mm = tuple(sorted(rest + ([nm] if nm else [])))
+        v = out.get(mm, 0) + c
+        if v == 0:
+            out.pop(mm, None)
+        else:
+            out[mm] = v
+    return out
+
+
+def equal_pow(a, b):
+    return merge_powers(p_mul(a[0], b[1])) == merge_powers(p_mul(b[0], a[1]))
+
+
+def rat_pow(n, base, res=None, alias=None, rename=None):
+    """rat() in which base (an nf string), base.powf(e), base.powi(e), base.sqrt() become power atoms. rename: {local name: atom}"""
+    subst = {}
+    ren = {k: (p_atom(v), ONE) for k, v in (rename or {}).items()}
+
+    def scan(x, depth=0):
+        x = nfm.strip_casts(x)
+        if x["k"] == "Path" and "local" in x["res"] and res is not None and depth < 10 and x["res"]["name"] not in ren:
+            d = res.lookup(x["res"]["local"], x)
+            if d is not None:
+                scan(d, depth + 1)
+            return
+        if x["k"] == "MethodCall" and nfm.nf(x["recv"], True, alias=alias, res=res) == base:
+            if x["name"] in ("powf", "powi") and len(x["args"]) == 1:
+                subst[id(x)] = pow_atom(rat(x["args"][0], res, ren, alias=alias))
+                return
+            if x["name"] == "sqrt" and not x["args"]:
+                subst[id(x)] = pow_atom("1/2")
+                return
+        if x["k"] in ("Field", "Path") and nfm.nf(x, True, alias=alias, res=res) == base:
+            subst[id(x)] = pow_atom("1")
+            return
+        from . import hirq
+        for c in hirq.children(x):
+            scan(c, depth)
+    scan(n)
+    subst.update(ren)
+    return rat(n, res, subst, alias=alias)
